@@ -396,3 +396,166 @@ package banderwagon
 //@ loop 3 invariant accInverse == fp_inv(zprod(HP, DR, DO, i + 1))
 //@ loop 3 invariant forall k int :: i < k && k < N ==> invs[k] == fp_inv(HP[pobj(DR, DO, k)][poff(DR, DO, k) + 2])
 //@ loop 3 invariant forall k int :: 0 <= k && k <= i ==> invs[k] == zprod(HP, DR, DO, k)
+
+// ---- batch conversion to normalised extended points (table construction of C05)
+// Cells are addressed through the accessors c1/c3/c4 of spec/bnorm.smt2 (element k, field d of a slice with 1-, 3- or 4-cell
+// elements): R*(S,k) the X, Y, T cells of entry k of a []PointExtendedNormalized, P*(S,k) the X, Y, Z cells of a
+// []PointExtended, ZB(S,k) entry k of a []bool.
+//@ macro RXc(H, S, k) = H[obj(S)][c3(off(S), k, 0)]
+//@ macro RYc(H, S, k) = H[obj(S)][c3(off(S), k, 1)]
+//@ macro RTc(H, S, k) = H[obj(S)][c3(off(S), k, 2)]
+//@ macro PXc(H, S, k) = H[obj(S)][c4(off(S), k, 0)]
+//@ macro PYc(H, S, k) = H[obj(S)][c4(off(S), k, 1)]
+//@ macro PZc(H, S, k) = H[obj(S)][c4(off(S), k, 2)]
+//@ macro ZBc(H, S, k) = (H[obj(S)][c1(off(S), k)] == 1)
+
+// the conversion closure (rule R2): entry k of its range becomes (X_k*a, Y_k*a, X'*Y') with a the prepared inverse found in
+// result[k].X; entries flagged zero and everything outside result[start:end] are untouched
+//@ func batchToExtendedPointNormalized$1
+//@ props C05 C13
+//@ prelude field bnorm
+//@ option chunked
+//@ let HP = heapFp()
+//@ let HI = heapInt()
+//@ let RS = *result
+//@ let PS = *points
+//@ let ZS = *zeroes
+//@ requires 0 <= start && start <= end && end <= len(PS) && end <= len(RS) && end <= len(ZS) && obj(RS) != obj(PS) && allocated(obj(RS)) && allocated(obj(PS)) && allocated(obj(ZS))
+//@ ensures forall k int :: start <= k && k < end && !ZBc(HI, ZS, k) ==> RXc(heapFp(), RS, k) == PXc(HP, PS, k) * RXc(HP, RS, k)
+//@ ensures forall k int :: start <= k && k < end && !ZBc(HI, ZS, k) ==> RYc(heapFp(), RS, k) == PYc(HP, PS, k) * RXc(HP, RS, k)
+//@ ensures forall k int :: start <= k && k < end && !ZBc(HI, ZS, k) ==> RTc(heapFp(), RS, k) == RXc(heapFp(), RS, k) * RYc(heapFp(), RS, k)
+//@ ensures forall k int :: start <= k && k < end && ZBc(HI, ZS, k) ==> RXc(heapFp(), RS, k) == RXc(HP, RS, k)
+//@ ensures forall k int :: start <= k && k < end && ZBc(HI, ZS, k) ==> RYc(heapFp(), RS, k) == RYc(HP, RS, k) && RTc(heapFp(), RS, k) == RTc(HP, RS, k)
+//@ ensures forall o int, c int :: allocated(o) && !(o == obj(RS) && off(RS) + 3 * start <= c && c < off(RS) + 3 * end) ==> heapFp()[o][c] == HP[o][c]
+//@ modifies * in Fp
+//@ loop 0 invariant start <= i && i <= end && *result == RS && *points == PS && *zeroes == ZS
+//@ loop 0 invariant forall k int :: start <= k && k < i && !ZBc(HI, ZS, k) ==> RXc(heapFp(), RS, k) == PXc(HP, PS, k) * RXc(HP, RS, k)
+//@ loop 0 invariant forall k int :: start <= k && k < i && !ZBc(HI, ZS, k) ==> RYc(heapFp(), RS, k) == PYc(HP, PS, k) * RXc(HP, RS, k)
+//@ loop 0 invariant forall k int :: start <= k && k < i && !ZBc(HI, ZS, k) ==> RTc(heapFp(), RS, k) == RXc(heapFp(), RS, k) * RYc(heapFp(), RS, k)
+//@ loop 0 invariant forall k int :: start <= k && k < i && ZBc(HI, ZS, k) ==> RXc(heapFp(), RS, k) == RXc(HP, RS, k)
+//@ loop 0 invariant forall k int :: start <= k && k < i && ZBc(HI, ZS, k) ==> RYc(heapFp(), RS, k) == RYc(HP, RS, k) && RTc(heapFp(), RS, k) == RTc(HP, RS, k)
+//@ loop 0 invariant forall o int, c int :: allocated(o) && !(o == obj(RS) && off(RS) + 3 * start <= c && c < off(RS) + 3 * i) ==> heapFp()[o][c] == HP[o][c]
+//@ at loopbody 0: ghost Hb := heapFp()
+//@ at loopbody 0: assert@cur RXc(Hb, RS, i) == RXc(HP, RS, i) && RYc(Hb, RS, i) == RYc(HP, RS, i) && RTc(Hb, RS, i) == RTc(HP, RS, i) && PXc(Hb, PS, i) == PXc(HP, PS, i) && PYc(Hb, PS, i) == PYc(HP, PS, i)
+//@ at call Mul 2: assert@others forall k int :: start <= k && k < i ==> RXc(heapFp(), RS, k) == RXc(Hb, RS, k) && RYc(heapFp(), RS, k) == RYc(Hb, RS, k) && RTc(heapFp(), RS, k) == RTc(Hb, RS, k)
+//@ at call Mul 2: assert@celli RXc(heapFp(), RS, i) == PXc(HP, PS, i) * RXc(HP, RS, i) && RYc(heapFp(), RS, i) == PYc(HP, PS, i) * RXc(HP, RS, i) && RTc(heapFp(), RS, i) == RXc(heapFp(), RS, i) * RYc(heapFp(), RS, i)
+
+// batchToExtendedPointNormalized: Montgomery batch inversion of the Z column that skips zeros (nzprod: product of the
+// non-zero Z among the first n points), then the conversion closure. Entry k of the fresh result is (X/Z, Y/Z, (X/Z)*(Y/Z))
+// of point k, and (0, 0, 0) for a point with Z == 0; no pre-existing cell is written.
+//@ func batchToExtendedPointNormalized
+//@ props C05 C13
+//@ prelude field fieldlemmas bnorm
+//@ let HP = heapFp()
+//@ let HI = heapInt()
+//@ let P0 = points
+//@ ensures fresh(result) && len(result) == len(points)
+//@ ensures forall k int :: 0 <= k && k < len(P0) && PZc(HP, P0, k) != fp_zero ==> RXc(heapFp(), result, k) == PXc(HP, P0, k) * fp_inv(PZc(HP, P0, k))
+//@ ensures forall k int :: 0 <= k && k < len(P0) && PZc(HP, P0, k) != fp_zero ==> RYc(heapFp(), result, k) == PYc(HP, P0, k) * fp_inv(PZc(HP, P0, k))
+//@ ensures forall k int :: 0 <= k && k < len(P0) && PZc(HP, P0, k) != fp_zero ==> RTc(heapFp(), result, k) == RXc(heapFp(), result, k) * RYc(heapFp(), result, k)
+//@ ensures forall k int :: 0 <= k && k < len(P0) && PZc(HP, P0, k) == fp_zero ==> RXc(heapFp(), result, k) == fp_zero
+//@ ensures forall k int :: 0 <= k && k < len(P0) && PZc(HP, P0, k) == fp_zero ==> RYc(heapFp(), result, k) == fp_zero && RTc(heapFp(), result, k) == fp_zero
+//@ ensures forall o int, c int :: allocated(o) ==> heapFp()[o][c] == HP[o][c]
+//@ modifies * in Fp
+// the loops write zeroes[i] through a pointer computed in the loop: all Int cells are havocked at the loop heads, so the slice
+// headers (snapshots taken before the first loop) and the frame of the pre-existing Int cells are loop invariants
+//@ at call One 0: ghost RSV := result
+//@ at call One 0: ghost ZSV := zeroes
+//@ macro HDR() = (result == RSV && zeroes == ZSV && sameslice(points, P0))
+//@ macro FRM() = (forall o int, c int :: allocated(o) ==> heapFp()[o][c] == HP[o][c] && heapInt()[o][c] == HI[o][c])
+//@ loop 0 invariant 0 <= i && i <= len(P0) && HDR() && len(RSV) == len(P0) && len(ZSV) == len(P0) && !allocated(obj(RSV)) && !allocated(obj(ZSV)) && obj(RSV) != obj(ZSV)
+//@ loop 0 invariant FRM()
+//@ loop 0 invariant accumulator == nzprod(HP[obj(P0)], off(P0), i) && accumulator != fp_zero
+//@ loop 0 invariant forall j int :: 0 <= j && j < len(P0) ==> ZBc(heapInt(), ZSV, j) == (j < i && PZc(HP, P0, j) == fp_zero)
+//@ loop 0 invariant forall j int :: 0 <= j && j < len(P0) ==> RXc(heapFp(), RSV, j) == ((j < i && PZc(HP, P0, j) != fp_zero) ? nzprod(HP[obj(P0)], off(P0), j) : fp_zero)
+//@ loop 0 invariant forall j int :: 0 <= j && j < len(P0) ==> RYc(heapFp(), RSV, j) == fp_zero && RTc(heapFp(), RSV, j) == fp_zero
+//@ loop 1 invariant 0 - 1 <= i && i < len(P0) && HDR()
+//@ loop 1 invariant FRM()
+//@ loop 1 invariant accInverse == fp_inv(nzprod(HP[obj(P0)], off(P0), i + 1)) && nzprod(HP[obj(P0)], off(P0), i + 1) != fp_zero
+//@ loop 1 invariant forall j int :: 0 <= j && j < len(P0) ==> ZBc(heapInt(), ZSV, j) == (PZc(HP, P0, j) == fp_zero)
+//@ loop 1 invariant forall j int :: 0 <= j && j <= i ==> RXc(heapFp(), RSV, j) == (PZc(HP, P0, j) != fp_zero ? nzprod(HP[obj(P0)], off(P0), j) : fp_zero)
+//@ loop 1 invariant forall j int :: i < j && j < len(P0) ==> RXc(heapFp(), RSV, j) == fp_inv(PZc(HP, P0, j))
+//@ loop 1 invariant forall j int :: 0 <= j && j < len(P0) ==> RYc(heapFp(), RSV, j) == fp_zero && RTc(heapFp(), RSV, j) == fp_zero
+
+// ---- batch conversion of projective points to affine (input preparation of the variable-base MSM, C09): the same scheme
+// with 3-cell inputs (QX/QY/QZ) and 2-cell results (AX/AY); a point with Z == 0 gives (0, 0)
+//@ macro AXc(H, S, k) = H[obj(S)][c2(off(S), k, 0)]
+//@ macro AYc(H, S, k) = H[obj(S)][c2(off(S), k, 1)]
+//@ macro QXc(H, S, k) = H[obj(S)][c3(off(S), k, 0)]
+//@ macro QYc(H, S, k) = H[obj(S)][c3(off(S), k, 1)]
+//@ macro QZc(H, S, k) = H[obj(S)][c3(off(S), k, 2)]
+
+//@ func batchProjToAffine$1
+//@ props C13 C02
+//@ prelude field bnorm
+//@ option chunked
+//@ let HP = heapFp()
+//@ let HI = heapInt()
+//@ let RS = *result
+//@ let PS = *points
+//@ let ZS = *zeroes
+//@ requires 0 <= start && start <= end && end <= len(PS) && end <= len(RS) && end <= len(ZS) && obj(RS) != obj(PS) && allocated(obj(RS)) && allocated(obj(PS)) && allocated(obj(ZS))
+//@ ensures forall k int :: start <= k && k < end && !ZBc(HI, ZS, k) ==> AXc(heapFp(), RS, k) == QXc(HP, PS, k) * AXc(HP, RS, k)
+//@ ensures forall k int :: start <= k && k < end && !ZBc(HI, ZS, k) ==> AYc(heapFp(), RS, k) == QYc(HP, PS, k) * AXc(HP, RS, k)
+//@ ensures forall k int :: start <= k && k < end && ZBc(HI, ZS, k) ==> AXc(heapFp(), RS, k) == AXc(HP, RS, k)
+//@ ensures forall k int :: start <= k && k < end && ZBc(HI, ZS, k) ==> AYc(heapFp(), RS, k) == AYc(HP, RS, k)
+//@ ensures forall o int, c int :: allocated(o) && !(o == obj(RS) && off(RS) + 2 * start <= c && c < off(RS) + 2 * end) ==> heapFp()[o][c] == HP[o][c]
+//@ modifies * in Fp
+//@ loop 0 invariant start <= i && i <= end && *result == RS && *points == PS && *zeroes == ZS
+//@ loop 0 invariant forall k int :: start <= k && k < i && !ZBc(HI, ZS, k) ==> AXc(heapFp(), RS, k) == QXc(HP, PS, k) * AXc(HP, RS, k)
+//@ loop 0 invariant forall k int :: start <= k && k < i && !ZBc(HI, ZS, k) ==> AYc(heapFp(), RS, k) == QYc(HP, PS, k) * AXc(HP, RS, k)
+//@ loop 0 invariant forall k int :: start <= k && k < i && ZBc(HI, ZS, k) ==> AXc(heapFp(), RS, k) == AXc(HP, RS, k)
+//@ loop 0 invariant forall k int :: start <= k && k < i && ZBc(HI, ZS, k) ==> AYc(heapFp(), RS, k) == AYc(HP, RS, k)
+//@ loop 0 invariant forall o int, c int :: allocated(o) && !(o == obj(RS) && off(RS) + 2 * start <= c && c < off(RS) + 2 * i) ==> heapFp()[o][c] == HP[o][c]
+//@ at loopbody 0: ghost Hb := heapFp()
+//@ at loopbody 0: assert@cur AXc(Hb, RS, i) == AXc(HP, RS, i) && AYc(Hb, RS, i) == AYc(HP, RS, i) && QXc(Hb, PS, i) == QXc(HP, PS, i) && QYc(Hb, PS, i) == QYc(HP, PS, i)
+//@ at call Mul 1: assert@others forall k int :: start <= k && k < i ==> AXc(heapFp(), RS, k) == AXc(Hb, RS, k) && AYc(heapFp(), RS, k) == AYc(Hb, RS, k)
+//@ at call Mul 1: assert@celli AXc(heapFp(), RS, i) == QXc(HP, PS, i) * AXc(HP, RS, i) && AYc(heapFp(), RS, i) == QYc(HP, PS, i) * AXc(HP, RS, i)
+
+// Entry k of the fresh result is the affine point (X/Z, Y/Z) of point k, and (0, 0) for a point with Z == 0; no pre-existing
+// cell is written.
+//@ func batchProjToAffine
+//@ props C13 C02
+//@ prelude field fieldlemmas bnorm
+//@ let HP = heapFp()
+//@ let HI = heapInt()
+//@ let P0 = points
+//@ ensures fresh(result) && len(result) == len(points)
+//@ ensures forall k int :: 0 <= k && k < len(P0) && QZc(HP, P0, k) != fp_zero ==> AXc(heapFp(), result, k) == QXc(HP, P0, k) * fp_inv(QZc(HP, P0, k))
+//@ ensures forall k int :: 0 <= k && k < len(P0) && QZc(HP, P0, k) != fp_zero ==> AYc(heapFp(), result, k) == QYc(HP, P0, k) * fp_inv(QZc(HP, P0, k))
+//@ ensures forall k int :: 0 <= k && k < len(P0) && QZc(HP, P0, k) == fp_zero ==> AXc(heapFp(), result, k) == fp_zero
+//@ ensures forall k int :: 0 <= k && k < len(P0) && QZc(HP, P0, k) == fp_zero ==> AYc(heapFp(), result, k) == fp_zero
+//@ ensures forall o int, c int :: allocated(o) ==> heapFp()[o][c] == HP[o][c]
+//@ modifies * in Fp
+//@ at call One 0: ghost RSV := result
+//@ at call One 0: ghost ZSV := zeroes
+//@ macro HDRa() = (result == RSV && zeroes == ZSV && sameslice(points, P0))
+//@ macro FRMa() = (forall o int, c int :: allocated(o) ==> heapFp()[o][c] == HP[o][c] && heapInt()[o][c] == HI[o][c])
+//@ loop 0 invariant 0 <= i && i <= len(P0) && HDRa() && len(RSV) == len(P0) && len(ZSV) == len(P0) && !allocated(obj(RSV)) && !allocated(obj(ZSV)) && obj(RSV) != obj(ZSV)
+//@ loop 0 invariant FRMa()
+//@ loop 0 invariant accumulator == nzprod3(HP[obj(P0)], off(P0), i) && accumulator != fp_zero
+//@ loop 0 invariant forall j int :: 0 <= j && j < len(P0) ==> ZBc(heapInt(), ZSV, j) == (j < i && QZc(HP, P0, j) == fp_zero)
+//@ loop 0 invariant forall j int :: 0 <= j && j < len(P0) ==> AXc(heapFp(), RSV, j) == ((j < i && QZc(HP, P0, j) != fp_zero) ? nzprod3(HP[obj(P0)], off(P0), j) : fp_zero)
+//@ loop 0 invariant forall j int :: 0 <= j && j < len(P0) ==> AYc(heapFp(), RSV, j) == fp_zero
+//@ loop 1 invariant 0 - 1 <= i && i < len(P0) && HDRa()
+//@ loop 1 invariant FRMa()
+//@ loop 1 invariant accInverse == fp_inv(nzprod3(HP[obj(P0)], off(P0), i + 1)) && nzprod3(HP[obj(P0)], off(P0), i + 1) != fp_zero
+//@ loop 1 invariant forall j int :: 0 <= j && j < len(P0) ==> ZBc(heapInt(), ZSV, j) == (QZc(HP, P0, j) == fp_zero)
+//@ loop 1 invariant forall j int :: 0 <= j && j <= i ==> AXc(heapFp(), RSV, j) == (QZc(HP, P0, j) != fp_zero ? nzprod3(HP[obj(P0)], off(P0), j) : fp_zero)
+//@ loop 1 invariant forall j int :: i < j && j < len(P0) ==> AXc(heapFp(), RSV, j) == fp_inv(QZc(HP, P0, j))
+//@ loop 1 invariant forall j int :: 0 <= j && j < len(P0) ==> AYc(heapFp(), RSV, j) == fp_zero
+
+// Element.MultiExp: copies the projective coordinates, converts them to affine in one batch (proved above) and calls the
+// bucket-method MSM (assumed contract on affine points); the affine sum equals the projective one (bridge lemma).
+//@ func Element.MultiExp
+//@ props C02
+//@ prelude field fieldlemmas group bytes bytesint bytesbridge curve frint bary ipa ipaspec bnorm msmaffine
+//@ let HP = heapFp()
+//@ requires validVec(points) && config.ScalarsMont
+//@ ensures err != nil <==> len(points) != len(scalars)
+//@ ensures err == nil ==> result0 == p && validP(p.inner) && gelP(p.inner) == old(gsum(points, scalars, len(points)))
+//@ ensures err != nil ==> *p == old(*p)
+//@ modifies *p
+//@ loop 0 invariant 0 - 1 <= rangeindex && rangeindex < len(points) && len(projPoints) == len(points) && fresh(projPoints)
+//@ loop 0 invariant forall k int :: 0 <= k && k <= rangeindex ==> QXc(heapFp(), projPoints, k) == QXc(HP, points, k) && QYc(heapFp(), projPoints, k) == QYc(HP, points, k) && QZc(heapFp(), projPoints, k) == QZc(HP, points, k)
+//@ loop 0 invariant forall o int, c int :: allocated(o) ==> heapFp()[o][c] == HP[o][c]
